@@ -373,7 +373,10 @@ class Gen:
     def gen_bad(self):
         s = self.r.randrange(len(self.parents))
         kind = self.r.choice(["provide", "provide", "decorate", "invoke"])
-        bad = self.r.choice(["nil", "int", "struct", "string", "ptr", "chan", "slice", "map", "nilfunc", "nilfunc2"])
+        bad = self.r.choice(["nil", "int", "struct", "string", "ptr", "chan", "slice", "map", "nilfunc", "nilfunc2",
+                             "optional-notbool", "ignore-unexported-notbool", "group-badoption", "out-as-param",
+                             "ptr-in"] + (["no-results", "only-error"] if kind == "provide" else [])
+                            + (["in-as-result"] if kind != "invoke" else []))
         self.ops.append(dict(op="bad", scope=s, kind=kind, bad=bad))
 
     def gen_case(self, cid):
